@@ -13,7 +13,7 @@ import struct
 import zlib
 
 from .. import build, framework as fw, grammar, hxb
-from ..hxb import REQ, RES, CLOSE
+from ..hxb import REQ, RES, CLOSE, REQ_CLOSE
 
 SIZES = {'quick': 2400, 'thorough': 48000}
 
@@ -229,7 +229,12 @@ def shard(args):
             clist = [c for c in clist if c[0] in ('whole', 'fixed1000', 'random', 'fixed64')][:4]
         for cname, chunks in clist:
             if side == 'res':
-                ops = [(REQ, req + follow_req)] + [(RES, c) for c in chunks if c] + ([(RES, follow_res)] if follow_res else []) + [(CLOSE, None)]
+                rops = [(RES, c) for c in chunks if c]
+                if len(rops) > 1 and r.chance(0.25):
+                    # the client half-closes (htp_connp_req_close) once its last request is out, while the coded response is still arriving
+                    rops.insert(r.randrange(1, len(rops)), (REQ_CLOSE, None))
+                    cname += '+reqclose'
+                ops = [(REQ, req + follow_req)] + rops + ([(RES, follow_res)] if follow_res else []) + [(CLOSE, None)]
             else:
                 ops = [(REQ, c) for c in chunks if c] + [(RES, b'HTTP/1.1 200 OK\r\nContent-Length: 0\r\n\r\n'), (CLOSE, None)]
             cases.append((key, cfg, ops))
@@ -251,7 +256,7 @@ def shard(args):
         out['n'] += 1
         out['distinct'].add(hashlib.sha1(repr(ops).encode('latin-1', 'replace')).digest()[:8])
         out['tags'][tag.split(':')[0] + ':' + (tag.split(':')[1] if ':' in tag else '')] = out['tags'].get(tag.split(':')[0] + ':' + (tag.split(':')[1] if ':' in tag else ''), 0) + 1
-        cs = cname.split('@')[0].rstrip('0123456789')
+        cs = cname.split('@')[0].split('+')[0].rstrip('0123456789') + ('+reqclose' if '+reqclose' in cname else '')
         out['chunk_styles'][cs] = out['chunk_styles'].get(cs, 0) + 1
         errs = []
         txs = d.get('tx', [])
